@@ -25,7 +25,7 @@ FLOORS = {"quick": {"distinct_nontrivial": 100, "host_rows_judged": 8000, "devic
 
 def gen_case(rnd, tier: str, i: Any) -> Dict[str, Any]:
     n_ranks = rnd.choice([1, 1, 2])
-    first_step = rnd.randint(1, 500)
+    first_step = gen_sim.pick_first_step(rnd)
     n_steps = rnd.choice([0, 1, 2, 2, 3, 5])         # every rank carries the same step set
     files = {}
     for r in range(n_ranks):
